@@ -293,7 +293,13 @@ pub extern "C" fn wirefilter_add_type_field_to_scheme(
     ty: CType,
 ) -> bool {
     let name = to_str!(name_ptr, name_len);
-    builder.add_field(name, ty.into()).is_ok()
+    match builder.add_field(name, ty.into()) {
+        Ok(()) => true,
+        Err(err) => {
+            write_last_error!("{}", err);
+            false
+        }
+    }
 }
 
 #[unsafe(no_mangle)]
@@ -301,7 +307,13 @@ pub extern "C" fn wirefilter_add_always_list_to_scheme(
     builder: &mut SchemeBuilder,
     ty: CType,
 ) -> bool {
-    builder.add_list(ty.into(), AlwaysList {}).is_ok()
+    match builder.add_list(ty.into(), AlwaysList {}) {
+        Ok(()) => true,
+        Err(err) => {
+            write_last_error!("{}", err);
+            false
+        }
+    }
 }
 
 #[unsafe(no_mangle)]
@@ -309,7 +321,13 @@ pub extern "C" fn wirefilter_add_never_list_to_scheme(
     builder: &mut SchemeBuilder,
     ty: CType,
 ) -> bool {
-    builder.add_list(ty.into(), NeverList {}).is_ok()
+    match builder.add_list(ty.into(), NeverList {}) {
+        Ok(()) => true,
+        Err(err) => {
+            write_last_error!("{}", err);
+            false
+        }
+    }
 }
 
 #[unsafe(no_mangle)]
@@ -578,7 +596,13 @@ pub extern "C" fn wirefilter_add_int_value_to_execution_context(
     value: i64,
 ) -> bool {
     let name = to_str!(name_ptr, name_len);
-    exec_context.set_field_value_from_name(name, value).is_ok()
+    match exec_context.set_field_value_from_name(name, value) {
+        Ok(_) => true,
+        Err(err) => {
+            write_last_error!("{}", err);
+            false
+        }
+    }
 }
 
 #[unsafe(no_mangle)]
@@ -592,7 +616,13 @@ pub extern "C" fn wirefilter_add_bytes_value_to_execution_context(
     let name = to_str!(name_ptr, name_len);
     assert!(!value_ptr.is_null());
     let value = unsafe { std::slice::from_raw_parts(value_ptr, value_len) };
-    exec_context.set_field_value_from_name(name, value).is_ok()
+    match exec_context.set_field_value_from_name(name, value) {
+        Ok(_) => true,
+        Err(err) => {
+            write_last_error!("{}", err);
+            false
+        }
+    }
 }
 
 #[unsafe(no_mangle)]
@@ -603,9 +633,13 @@ pub extern "C" fn wirefilter_add_ipv6_value_to_execution_context(
     value: &[u8; 16],
 ) -> bool {
     let name = to_str!(name_ptr, name_len);
-    exec_context
-        .set_field_value_from_name(name, IpAddr::from(*value))
-        .is_ok()
+    match exec_context.set_field_value_from_name(name, IpAddr::from(*value)) {
+        Ok(_) => true,
+        Err(err) => {
+            write_last_error!("{}", err);
+            false
+        }
+    }
 }
 
 #[unsafe(no_mangle)]
@@ -616,9 +650,13 @@ pub extern "C" fn wirefilter_add_ipv4_value_to_execution_context(
     value: &[u8; 4],
 ) -> bool {
     let name = to_str!(name_ptr, name_len);
-    exec_context
-        .set_field_value_from_name(name, IpAddr::from(*value))
-        .is_ok()
+    match exec_context.set_field_value_from_name(name, IpAddr::from(*value)) {
+        Ok(_) => true,
+        Err(err) => {
+            write_last_error!("{}", err);
+            false
+        }
+    }
 }
 
 #[unsafe(no_mangle)]
@@ -629,7 +667,13 @@ pub extern "C" fn wirefilter_add_bool_value_to_execution_context(
     value: bool,
 ) -> bool {
     let name = to_str!(name_ptr, name_len);
-    exec_context.set_field_value_from_name(name, value).is_ok()
+    match exec_context.set_field_value_from_name(name, value) {
+        Ok(_) => true,
+        Err(err) => {
+            write_last_error!("{}", err);
+            false
+        }
+    }
 }
 
 #[derive(Debug)]
